@@ -608,6 +608,11 @@ pub fn encode_fixed_size_frame(
         ..(1usize << 31)
     )?;
 
+    verify_true!(
+        "encode_fixed_size_frame (framebuf)",
+        framebuf.channels() == stream_info.channels() && framebuf.filled_size() > 0,
+        "must not be empty, and must have the same number of channels as `stream_info`"
+    )?;
     framebuf.verify_samples(stream_info.bits_per_sample())?;
     // NOTE: From expected use cases, wrapping `stream_info` is not practical
     // since it is mutable everywhere. On the other hand, verifying it here is
